@@ -271,10 +271,11 @@ def fault_jobs(rnd, tier):
             # relational faults
             cells = rows0[i]["cells"]
             if tbl == "in" and cells[lay[tbl]["crypto_fee"]]["k"] == "e":
-                rows = copy.deepcopy(rows0)
-                _set(rows[i]["cells"][lay[tbl]["crypto_fee"]], k="n", n=1)
-                _set(rows[i]["cells"][lay[tbl]["fiat_fee"]], k="n", n=1)
-                jobs.append({"kind": "sheet", "K": K_REAL, "L": lay, "rows": rows, "conc": {"U": "0.5", "P": "10"}, "tag": f"fault:both_fees:row{i + 1}"})
+                for cf, ff in ((1, 1), (1, 0), (0, 1), (0, 0)):      # both fee cells filled in: a contradiction whatever the values
+                    rows = copy.deepcopy(rows0)
+                    _set(rows[i]["cells"][lay[tbl]["crypto_fee"]], k="n", n=cf)
+                    _set(rows[i]["cells"][lay[tbl]["fiat_fee"]], k="n", n=ff)
+                    jobs.append({"kind": "sheet", "K": K_REAL, "L": lay, "rows": rows, "conc": {"U": "0.5", "P": "10"}, "tag": f"fault:both_fees_{cf}_{ff}:row{i + 1}"})
             if tbl == "intra":
                 rows = copy.deepcopy(rows0)
                 _set(rows[i]["cells"][lay[tbl]["crypto_received"]], k="n", n=cells[lay[tbl]["crypto_sent"]]["n"] + 1)
